@@ -94,6 +94,19 @@ CHECKS = {
              "asset; Assets() order and names that only ever received empty batches are not compared.",
         technique="TLC model checking + exhaustive model-generated histories replayed on the three real repositories",
         engine="tlc"),
+    "C11": dict(
+        category="model_checking",
+        text="spec/CsvFile.tla: a file as a sequence of equal-length lines under WriteToFile / AppendToFile / AppendOrWriteToCsvFile "
+             "(implementation-shaped overlay without truncation selectable) beside the abstract content the property prescribes; TLC "
+             "checks ReadBack and OneHeader over all call histories (0..2 rows, depth 4-5) from a missing, empty and header-only file, "
+             "emits every history and every header arrangement (any order of a subset of the struct columns plus an extra column, 64) "
+             "with the name-based mapping; all are replayed on the real helper.Csv[T]. Value fidelity for every supported kind is a "
+             "pool round trip through CSV (with and without header) and JSON - sampled, not model checked.",
+        design_ref="DESIGN.md 2.5, 5 (C11)",
+        note="Trusted: TLC, the replay harness; lines padded to equal byte length stand for records. The value dimension is a pool "
+             "(quoting-sensitive strings, extreme integers, floats incl. subnormals and +-Inf, dates in both formats).",
+        technique="TLC model checking of the file/columns state machine + replay on the real codec + value-pool round trips",
+        engine="tlc"),
     "C14": dict(
         category="model_checking",
         text="Report() of every strategy (base, compound, decorated) x configurations x n beyond the warm-up: the network recorded "
